@@ -1516,12 +1516,8 @@ def _minmax(head):
         if all(n.r.is_const() for n in nums):
             f = min if head == 'min' else max
             return Num(C(f(n.r.const_value() for n in nums)))
-        # symmetric: sort operands by printed form
-        rs = sorted((n.r for n in nums), key=sym.show)
-        acc = rs[0]
-        for r in rs[1:]:
-            acc = sym.A(head + '2', acc, r)
-        return Num(acc)
+        from .values import minmax_atom
+        return Num(minmax_atom(head, [n.r for n in nums]))
     return h
 
 
